@@ -2,7 +2,7 @@
 import numpy as np
 from hypothesis import strategies as st
 
-from ..core import Prop, Sub, Unsupported
+from ..core import Prop, Reject, Sub, Unsupported
 from ..gen import bases as gb
 from ..gen import elements as ge
 from ..gen import integrands as gi
@@ -16,8 +16,8 @@ def case(draw, tier):
     big = tier == 'thorough'
     desc = draw(gm.mesh(max_cells=24 if big else 10, max_cells_3d=8 if big else 4, order2=True, curved=True))
     kind = gm.mesh_kind(desc)
-    eu = draw(ge.wrapped(kind))
-    ev = draw(ge.wrapped(kind)) if draw(st.integers(0, 3)) > 0 else eu
+    eu = draw(ge.wrapped(kind, costly=big))
+    ev = draw(ge.wrapped(kind, costly=big)) if draw(st.integers(0, 3)) > 0 else eu
     kinds = gb.KINDS if kind != 'line' else ['cell', 'cellsub', 'bnd', 'facetsub', 'interior']
     b = draw(gb.basis_desc(kinds=kinds, max_order=4 if kind not in ('hex',) else 3))
     mixed_sides = b['kind'] in ('interior', 'interiorsub') and draw(st.booleans())
@@ -44,6 +44,8 @@ def body(c, ctx):
     m = build_mesh(desc)
     r = gb.resolve(m, bd, kind)
     eu, ev = build_element(c['eu']), build_element(c['ev'])
+    if hasattr(eu, 'doflocs') and hasattr(ev, 'doflocs') and len(eu.doflocs) * len(ev.doflocs) > 1600:
+        raise Reject()      # cost bound: local matrices beyond 40 x 40 (several seconds per case) add nothing the smaller ones lack
     su = r['side']
     sv = (1 - su) if (c['mixed_sides'] and r['kind'] in ('interior', 'interiorsub')) else su
     ub = gb.build(m, eu, r, side=su)
@@ -82,7 +84,7 @@ def body(c, ctx):
         return gi.eval_tree(tree, w['uh'], w['vh'], w)
 
     def form0abs(w):
-        return np.abs(gi.eval_tree(tree, w['uh'], w['vh'], w))
+        return gi.eval_tree_abs(tree, w['uh'], w['vh'], w)
     uh, vh = ub.interpolate(u), vb.interpolate(v)
     uh = gi.as_tuple(uh)
     vh = gi.as_tuple(vh)
@@ -96,8 +98,8 @@ def body(c, ctx):
     vAu = v @ (A @ u)
     # magnitude of what is being summed: the same tree with absolute values (bounds the cancellation inside every entry)
     def form2abs(*a):
-        return np.abs(gi.eval_tree(tree, a[:nu], a[nu:nu + nv], a[-1]))
-    Aabs = abs(BilinearForm(form2abs).assemble(ub, vb, **fkw(fm)))
+        return gi.eval_tree_abs(tree, a[:nu], a[nu:nu + nv], a[-1])
+    Aabs = abs(BilinearForm(form2abs).assemble(ub.with_element(ub.elem) if False else ub, vb, **fkw(fm)))
     rowscale = np.asarray(Aabs @ np.abs(u)).ravel()
     S = float(np.abs(v) @ (abs(A) @ np.abs(u))) + Jabs + abs(J) + float(np.abs(v) @ rowscale)
     tol = 1e-9
@@ -174,7 +176,8 @@ PROP = Prop(
           'a(phi_j, phi_i), parameter modes bit-identical, threaded == serial. Non-trivial: trial != test, or non-symmetric '
           'tree, or non-default basis kind'),
     assumptions=['facet bases are skipped for prisms and ElementTriN3 (raise by design)',
+                 'local matrices larger than 1600 entries are rejected (cost bound, counted)',
                  'tolerance 1e-9 relative to |v|^T|A||u| + integral of |integrand|',
                  'the Functional is assembled on the trial basis because BilinearForm takes w.x/w.h/w.n from it'],
-    subs=[Sub('forms', body, strategy=case, quick=900, thorough=20000)],
+    subs=[Sub('forms', body, strategy=case, quick=700, thorough=20000)],
     design_ref='DESIGN.md section 6, C01')
